@@ -1645,7 +1645,8 @@ class TeX(object):
                                                    default='0', optspace=optspace), 8))
             # hex constant
             elif t == '"':
-                num = number(sign * int('0x' + self.readSequence(string.hexdigits,
+                # TeX accepts only the upper case letters A-F as hexadecimal digits
+                num = number(sign * int('0x' + self.readSequence('0123456789ABCDEF',
                                                default='0', optspace=optspace), 16))
             # character token
             elif t == '`':
